@@ -181,6 +181,7 @@ json runBddHist(const json& c)
 		else if (op == "copy") { int j = st.at(2).get<int>(); ev["j"] = j; H.h[i].reset(new Aut(*H.h[j])); }
 		else if (op == "assign") { int j = st.at(2).get<int>(); ev["j"] = j; *H.h[i] = *H.h[j]; }
 		else if (op == "destroy") { H.h[i].reset(); }
+		else if (op == "final") { size_t q = st.at(2).get<size_t>(); ev["q"] = q; H.h[i]->SetStateFinal(q); }
 		else if (op == "tdestroy") { H.t[i].reset(); }
 		else if (op == "union") { int j = st.at(2).get<int>(), k = st.at(3).get<int>(); ev["j"] = j; ev["k"] = k; H.h[i].reset(new Aut(Aut::Union(*H.h[j], *H.h[k]))); }
 		else if (op == "uniondisj") { int j = st.at(2).get<int>(), k = st.at(3).get<int>(); ev["j"] = j; ev["k"] = k; H.h[i].reset(new Aut(Aut::UnionDisjointStates(*H.h[j], *H.h[k]))); }
@@ -208,4 +209,91 @@ json runBddHist(const json& c)
 VDRIVE_OP(bddhist)
 {
 	return (c.value("enc", "bu") == "td") ? runBddHist<TD>(c) : runBddHist<BU>(c);
+}
+
+
+// ----------------------------------------------------------------------------- agreement arm for C08
+// {"op":"bddagree","seed":S,"count":N}: random pairs generated here; for both encodings the results of Union, Intersection,
+// RemoveUselessStates, RemoveUnreachableStates (and GetTopDownAut) are dumped, re-loaded into the EXPLICIT encoding and
+// compared for language equality (library's own inclusion, cross-checked elsewhere) with the explicit result of the same
+// operation.  Only disagreeing cases come back, as bddhist histories that TLC then judges with TraceBdd.
+#include <random>
+namespace {
+
+json randTreeAut(std::mt19937& rng, size_t nq, size_t nrules, size_t base)
+{
+	static const std::pair<const char*, size_t> AL[4] = {{"a", 0}, {"b", 0}, {"g", 1}, {"f", 2}};
+	json rules = json::array();
+	for (size_t i = 0; i < nrules; ++i)
+	{
+		const auto& s = AL[rng() % 4];
+		json kids = json::array();
+		for (size_t k = 0; k < s.second; ++k) { kids.push_back(base + rng() % nq); }
+		json r = json::array({s.first, kids, base + rng() % nq});
+		bool dup = false;
+		for (const json& x : rules) { if (x == r) { dup = true; } }
+		if (!dup) { rules.push_back(r); }
+	}
+	json fin = json::array();
+	for (size_t q = 0; q < nq; ++q) { if (rng() % 100 < 35) { fin.push_back(base + q); } }
+	if (fin.empty()) { fin.push_back(base + rng() % nq); }
+	json a;
+	a["fin"] = fin; a["rules"] = rules;
+	return a;
+}
+
+TA toExplicit(const json& j, Alpha& alpha) { return MakeTA(j, alpha); }
+bool langEq(const TA& x, const TA& y) { return TA::CheckInclusion(x, y) && TA::CheckInclusion(y, x); }
+
+template <class Aut>
+void agreeOne(const json& ja, const json& jb, const char* enc, json& suspicious)
+{
+	Aut a, b;
+	loadBdd(a, ja);
+	loadBdd(b, jb);
+	Alpha alpha;
+	TA ea = toExplicit(ja, alpha), eb = toExplicit(jb, alpha);
+	struct Item { const char* op; json dump; TA expl; };
+	std::vector<std::pair<std::string, bool>> results;
+	auto check = [&](const char* op, const json& dump, const TA& expl) {
+		TA back = toExplicit(dump, alpha);
+		if (!langEq(back, expl) && suspicious.size() < 30)
+		{
+			json c;
+			c["op"] = "bddhist"; c["enc"] = enc; c["kind"] = "bdd"; c["src"] = "bdd-agreement-arm";
+			json steps = json::array();
+			steps.push_back(json::array({"load", 0, ja}));
+			steps.push_back(json::array({"load", 1, jb}));
+			std::string o = op;
+			if (o == "union" || o == "isect") { steps.push_back(json::array({o, 2, 0, 1})); }
+			else { steps.push_back(json::array({o, 2, 0})); }
+			c["steps"] = steps;
+			suspicious.push_back(c);
+		}
+	};
+	check("union", readBdd(Aut::Union(a, b)), TA::Union(ea, eb));
+	check("isect", readBdd(Aut::Intersection(a, b)), TA::Intersection(ea, eb));
+	check("useless", readBdd(a.RemoveUselessStates()), ea);
+	check("unreach", readBdd(a.RemoveUnreachableStates()), ea);
+}
+
+} // namespace
+
+VDRIVE_OP(bddagree)
+{
+	std::mt19937 rng(c.at("seed").get<unsigned>());
+	size_t count = c.at("count").get<size_t>();
+	json suspicious = json::array();
+	for (size_t i = 0; i < count; ++i)
+	{
+		json ja = randTreeAut(rng, 1 + rng() % 4, 2 + rng() % 6, 0);
+		json jb = randTreeAut(rng, 1 + rng() % 4, 2 + rng() % 7, (rng() % 2) ? 0 : 10);
+		SetStage(("bddagree pair " + std::to_string(i)).c_str());
+		agreeOne<BU>(ja, jb, "bu", suspicious);
+		agreeOne<TD>(ja, jb, "td", suspicious);
+	}
+	json res;
+	res["count"] = count;
+	res["suspicious"] = suspicious;
+	return res;
 }
